@@ -82,4 +82,42 @@ def UnaryUnion (E : OverlayEngine) (toPath : Ring → Path) (winding : Ring → 
   ∃ shapes, E (rs.map toPath) [] .union (unaryFill winding rs) shapes ∧
     out = multiPolygonFromShapes shapes
 
+/-! ### triangulation glue (geo/src/algorithm/triangulate_earcut.rs, triangulate_delaunay.rs) -/
+
+/-- a triangle as the three corners in the order geo emits them -/
+abbrev Tri3 := Pt × Pt × Pt
+
+/-- `Iter::triangle_index_to_coord` on the flattened vertex list `[x0, y0, x1, y1, …]` -/
+def vertexAt (verts : List Rat) (i : Nat) : Pt := ⟨verts.getD (2 * i) 0, verts.getD (2 * i + 1) 0⟩
+
+/-- `earcut_triangles_iter`: indices are *popped* three at a time from the end of the engine's
+index list, so triangles come out last-first with their corners in reverse. Leftover indices
+(fewer than three) end the iteration. -/
+def popTriangles (verts : List Rat) : List Nat → List Tri3
+  | i1 :: i2 :: i3 :: rest => (vertexAt verts i1, vertexAt verts i2, vertexAt verts i3) :: popTriangles verts rest
+  | _ => []
+
+def trianglesOfIndices (verts : List Rat) (idx : List Nat) : List Tri3 := popTriangles verts idx.reverse
+
+/-- `flat_line_string_coords_2` over exterior then interiors -/
+def flatCoords (p : Poly) : List Rat := (p.ext :: p.ints).flatMap (fun r => r.flatMap (fun c => [c.x, c.y]))
+
+/-- `interior_indexes`: vertex offset at which each interior starts -/
+def interiorIndexes (p : Poly) : List Nat :=
+  (p.ints.foldl (fun (acc : List Nat × Nat) r => (acc.1 ++ [acc.2], acc.2 + r.length)) ([], p.ext.length)).1
+
+/-- what `earcutr::earcut(vertices, hole_indices, 2)` may answer -/
+abbrev EarcutEngine := List Rat → List Nat → List Nat → Prop
+
+/-- `out` is a possible result of `polygon.earcut_triangles()` -/
+def EarcutTriangles (E : EarcutEngine) (p : Poly) (out : List Tri3) : Prop :=
+  ∃ idx, E (flatCoords p) (interiorIndexes p) idx ∧ out = trianglesOfIndices (flatCoords p) idx
+
+/-- `triangulation_to_triangles`: the engine's inner faces, in the engine's order -/
+def trianglesOfFaces (faces : List Tri3) : List Tri3 := faces.map (fun f => (f.1, f.2.1, f.2.2))
+
+/-- `constrained_triangulation`: the triangles of the outer triangulation whose centroid the
+geometry contains (`inside : Tri3 → Bool`), in the same order -/
+def constrainedOfOuter (inside : Tri3 → Bool) (outer : List Tri3) : List Tri3 := outer.filter inside
+
 end Geo.DetGlue
